@@ -128,15 +128,26 @@ def server():
     return proc
 
 
-def request(payload: dict) -> dict:
-    proc = server()
-    proc.stdin.write(json.dumps(payload) + "\n")
-    proc.stdin.flush()
-    line = proc.stdout.readline()
-    if not line:
-        _SERVER.pop("proc", None)
-        raise RuntimeError("crash server died")
-    return json.loads(line)
+def request(payload: dict, _retry: bool = True) -> dict:
+    try:
+        proc = server()
+        proc.stdin.write(json.dumps(payload) + "\n")
+        proc.stdin.flush()
+        line = proc.stdout.readline()
+        if not line:
+            raise RuntimeError("crash server died")
+        return json.loads(line)
+    except (RuntimeError, OSError, ValueError):
+        # the fork-server itself went away (not the session under test): start a new one and ask once more
+        old = _SERVER.pop("proc", None)
+        if old is not None:
+            try:
+                old.kill()
+            except OSError:
+                pass
+        if not _retry:
+            raise
+        return request(payload, _retry=False)
 
 
 _CALL = re.compile(r"^(\d+)\s+(\w+)\((.*)$")
